@@ -48,16 +48,26 @@ def adjacent_pairs(rng, info, d, docs):
             f2 = p + sl.size
             s2 = ReplaceStep(f2, max(f2, min(size1, f2 + rng.randint(0, 2))), gen.random_slice(rng, docs))
         out.append((s1, s2))
-    for _ in range(4):
-        m = gen.gen_mark(rng, schema)
+    present = []
+    d.descendants(lambda n, p, par, i: present.extend(n.marks) or True)
+    for _ in range(6):
+        m = rng.choice(present) if present and rng.random() < 0.6 else gen.gen_mark(rng, schema)
         if m is None:
             break
         f, t = gen.random_range(rng, d)
         f2 = rng.randint(max(0, f - 2), min(size, t + 2))
         t2 = rng.randint(f2, min(size, f2 + 5))
         cls = AddMarkStep if rng.random() < 0.5 else RemoveMarkStep
-        other = cls(f2, t2, m if rng.random() < 0.8 else gen.gen_mark(rng, schema))
-        out.append((cls(f, t, m), other))
+        r = rng.random()
+        if r < 0.65:
+            m2 = m
+        elif r < 0.85:
+            # the same mark type with other attributes (present in the document if possible)
+            same_type = [x for x in present if x.type is m.type and not x.eq(m)]
+            m2 = rng.choice(same_type) if same_type else gen.gen_mark(rng, schema, [m.type.name])
+        else:
+            m2 = gen.gen_mark(rng, schema)
+        out.append((cls(f, t, m), cls(f2, t2, m2)))
     for _ in range(4):
         out.append((gen.gen_step(rng, info, d, docs), gen.gen_step(rng, info, d, docs)))
     return out
@@ -73,6 +83,7 @@ def run(ctx):
         schema = info.schema
         ctx.driver.add_schema(info)
         docs = [gen.gen_doc(rng, schema, budget=rng.choice([6, 12, 25])) for _ in range(ctx.budget(5, 10))]
+        docs += [x for x in (gen.gen_marky_doc(rng, schema) for _ in range(ctx.budget(2, 4))) if x is not None]
         for d in docs:
             if ctx.time_left() < 0:
                 break
